@@ -689,6 +689,24 @@ fn gen_c18(rng: &mut Rng, tier: &str, emit: Emit) {
 }
 
 fn gen_c19(rng: &mut Rng, tier: &str, emit: Emit) {
+    // lengths near the top of `usize` (and around 2^32, 2^63) for every length-taking operation of the fixed types: the
+    // capacity checks must not be defeated by wrap-around in the arithmetic that precedes them
+    let huge: Vec<usize> = vec![usize::MAX, usize::MAX - 1, usize::MAX - 6, usize::MAX - 7, usize::MAX - 8, usize::MAX - 63, usize::MAX - 64,
+        1 << 63, (1 << 63) + 7, (1 << 63) - 1, 1 << 32, (1 << 32) + 5, (1 << 61) + 1, usize::MAX / 8, usize::MAX / 8 + 1, usize::MAX / 64 + 1];
+    for ty in TYPES.iter().filter(|t| t.kind == Kind::F) {
+        for &n in &huge {
+            emit(line("zeros", &[ty.tag, &s(n)]));
+            emit(line("ones", &[ty.tag, &s(n)]));
+            emit(line("repeat", &[ty.tag, "1", &s(n)]));
+            emit(line("read", &[ty.tag, &bytes_token(&[0xffu8; 4]), &s(n), if n % 2 == 0 { "big" } else { "little" }]));
+            emit(line("read", &[ty.tag, &bytes_token(&[]), &s(n), "little"]));
+            emit(line("with_capacity", &[ty.tag, &s(n)]));
+            let v = gen_vec(rng, ty, 0);
+            emit(line("resize", &[&v, &s(n), b(n % 3 == 0)]));
+            emit(line("sign_extend", &[&v, &s(n)]));
+            emit(line("truncate", &[&v, &s(n)]));
+        }
+    }
     // the filling constructors on every type, every boundary length (0 included), both bits
     for ty in TYPES {
         for n in lattice_lengths(ty, 300) {
@@ -1070,6 +1088,34 @@ fn gen_c15(rng: &mut Rng, tier: &str, emit: Emit) {
     }
 }
 
+/// pairs `(a, b)` related through their storage: `b` is `a` zero-extended (equal), or `a` plus one bit above all of `a`'s storage
+/// words, or `a` with its top word changed; different lengths, spare words and storage modes; both orders are emitted by the caller
+fn related_pairs(rng: &mut Rng, lt: &Ty, rt: &Ty) -> Vec<(String, String)> {
+    let mut out = vec![];
+    let lim_l = lt.cap().unwrap_or(260).min(260);
+    let lim_r = rt.cap().unwrap_or(330).min(330);
+    let la = [0usize, 1, 8, 63, 64, 65, 128, 130, 192][rng.below(9)].min(lim_l);
+    let mut abits = gen_bits(rng, la);
+    if rng.chance(1, 4) { for b in abits.iter_mut() { *b = false; } }
+    for kind in 0..4 {
+        let lb = match rng.below(3) { 0 => la, 1 => (la + 1 + rng.below(70)).min(lim_r), _ => ((la + 63) / 64 * 64 + 64 * (1 + rng.below(2)) + rng.below(3)).min(lim_r) };
+        if lb < la { continue; }
+        let mut bbits = abits.clone();
+        bbits.resize(lb, false);
+        match kind {
+            0 => {}
+            1 if lb > la => { let k = la + rng.below(lb - la); bbits[k] = true; }
+            2 if lb > (la + 63) / 64 * 64 => { let lo = (la + 63) / 64 * 64; let k = lo + rng.below(lb - lo); bbits[k] = true; }
+            3 if la > 0 => { let k = la - 1 - rng.below(la.min(64)); bbits[k] = !bbits[k]; }
+            _ => continue,
+        }
+        let a = vec_token(lt, &abits, rng.below(3), rng.chance(1, 2));
+        let b = vec_token(rt, &bbits, rng.below(3), rng.chance(1, 2));
+        out.push((a, b));
+    }
+    out
+}
+
 fn gen_c10(rng: &mut Rng, tier: &str, emit: Emit) {
     for ty in small_types() {
         for v in all_small(&ty, 6) {
@@ -1091,11 +1137,32 @@ fn gen_c10(rng: &mut Rng, tier: &str, emit: Emit) {
             let l2 = sig + rng.below(len - sig + 1);
             emit(line("hash", &[&vec_token(ty, &bits[..l2], rng.below(2), rng.chance(1, 2))]));
         }
+        // pairs of one type: `==` in both orders and "equal implies identically hashed"
+        for _ in 0..scale(tier, 60) {
+            for (a, b) in related_pairs(rng, ty, ty) {
+                emit(line("eqhash", &[&a, &b]));
+                emit(line("eqhash", &[&b, &a]));
+            }
+            let a = any_vec(rng, ty, 260, emit);
+            let b = any_vec(rng, ty, 260, emit);
+            emit(line("eqhash", &[&a, &b]));
+            emit(line("eqhash", &[&a, &a]));
+        }
     }
 }
 
 
 fn gen_c09(rng: &mut Rng, tier: &str, emit: Emit) {
+    for lt in TYPES {
+        for rt in TYPES {
+            for _ in 0..scale(tier, 2) {
+                for (a, b) in related_pairs(rng, lt, rt) {
+                    emit(line("cmpall", &[&a, &b]));
+                    emit(line("cmpall", &[&b, &a]));
+                }
+            }
+        }
+    }
     // exhaustive small scope over pairs of (type, length, value)
     let st = small_types();
     for lt in &st {
@@ -1179,7 +1246,33 @@ pub fn long_vec(rng: &mut Rng, ty: &Ty, len: usize) -> String {
     if len > 16 { bits[0] = true; bits[1] = false; bits[len - 1] = true; bits[len - 2] = false; }
     vec_token(ty, &bits, rng.below(2), false)
 }
+/// shrinking a very long heap vector to a short, unaligned length (frees whole pages: size-threshold branches), then looking at it
+fn big_shrink(rng: &mut Rng, fam: &str, emit: Emit) {
+    for ty in [ty_of("D"), ty_of("A")] {
+        for len in [40_000usize, 70_001] {
+            let v = long_vec(rng, &ty, len);
+            let keep = [1usize, 70, 100, 4097, len - 32_768 - 1, len - 32_769 - 64][rng.below(6)];
+            let l = match (fam, rng.below(3)) {
+                ("C08", 0) => line("split", &[&v, &s(keep)]),
+                ("C08", _) => line("split_off", &[&v, &s(keep)]),
+                (_, 0) => line("truncate", &[&v, &s(keep)]),
+                (_, 1) => line("resize", &[&v, &s(keep), "1"]),
+                _ => line("split_off", &[&v, &s(keep)]),
+            };
+            let out = emit(l);
+            if let Some(n) = out_vec(&out) {
+                emit(line("counts", &[&n]));
+                emit(line("push", &[&n, "1"]));
+                emit(line("shrink", &[&n]));
+            }
+        }
+    }
+}
+
 fn long_cases(rng: &mut Rng, fam: &str, emit: Emit) {
+    if matches!(fam, "C03" | "C07" | "C08" | "C18") {
+        big_shrink(rng, fam, emit);
+    }
     for ty in [ty_of("D"), ty_of("A")] {
         for &len in LONG_LENS {
             let v = long_vec(rng, &ty, len);
